@@ -1,11 +1,12 @@
 (* C01 Pack then Unpack reproduces the message.
    Proved here: the full statement for every primitive field (any kind x encoding x the 43 prefixers x padding,
    any in-domain value, arbitrary trailing bytes, arbitrary prior state of the object, identical re-pack).
-   Composite and message levels: the model's recursive pack_f/unpack_f and m_pack/m_unpack are tied to the
-   library by correspondence and exercised by the property oracle; their general theorem is stated below as
-   C01_field_statement (not yet proved - see DESIGN.md section 9). *)
+   and, by induction over the specification, for every nested field specification whose composites are tagged
+   (TLV, any tag encoding that reads back: tag_rt_value, tag_rt_ber) or positional: C01_field_roundtrip.
+   Not covered by a theorem: composites with a bitmap of subfields, and the message level (MTI + bitmap + fields);
+   the model's m_pack/m_unpack are tied to the library by correspondence and exercised by the property oracle. *)
 From Iso Require Import Model.Base Model.Padding Model.Encoding Model.Prefix Model.Bitmap Model.Spec Model.Field Model.Message
-     Proofs.BaseLemmas Proofs.PrefixProofs Proofs.FieldProofs.
+     Proofs.BaseLemmas Proofs.PrefixProofs Proofs.FieldProofs Proofs.CompositeProofs.
 
 Theorem C01_prim_roundtrip : forall p st b, coherent_pspec p -> prim_in_domain p st -> prim_pack p st = Ok b ->
   forall st0 rest, prim_unpack p st0 (b ++ rest) = (st, UOk (zlen b)).
@@ -18,11 +19,18 @@ Theorem C01_prim_repack : forall p st b, coherent_pspec p -> prim_in_domain p st
 Proof. intros p st b Hc Hd Hp st0 rest. rewrite (prim_roundtrip p st b Hc Hd Hp st0 rest). exact Hp. Qed.
 Print Assumptions C01_prim_repack.
 
-(* the statement for arbitrary (nested) field specs, for the record *)
-Definition C01_field_statement : Prop :=
-  forall (coherent : fspec -> Prop) (in_domain : fspec -> fstate -> Prop) s st b,
-    coherent s -> in_domain s st -> pack_f s st = Ok b ->
-    forall st0 rest, exists st', unpack_f s st0 (b ++ rest) = (st', UOk (zlen b)) /\ pack_f s st' = Ok b.
+(* nested field specifications: the same content comes back (equiv: the same subfields are set, with the same
+   content, recursively), exactly the packed bytes are consumed whatever follows and whatever the object held before
+   (any shaped object, e.g. a fresh one or one that was used), and packing the result returns the identical bytes *)
+Theorem C01_field_roundtrip : forall s, coherent s -> forall st b, in_dom s st -> pack_f s st = Ok b ->
+  forall st0 rest, shaped s st0 ->
+    exists st', unpack_f s st0 (b ++ rest) = (st', UOk (zlen b)) /\ equiv s st st' /\ pack_f s st' = Ok b /\ shaped s st'.
+Proof. exact field_roundtrip. Qed.
+Print Assumptions C01_field_roundtrip.
+
+Theorem C01_fresh_shaped : forall s, coherent s -> shaped s (fresh s).
+Proof. exact fresh_shaped. Qed.
+Print Assumptions C01_fresh_shaped.
 
 (* non-vacuity, and instances of the composite / message level by computation *)
 Definition p_ex : pspec := {| ps_kind := KString; ps_enc := EncBCD; ps_pref := PVar PfBinary 5; ps_len := 300; ps_pad := PadNone; ps_packer := PkDefault |}.
@@ -38,3 +46,21 @@ Example C01_ex_comp :
   exists b, pack_f c_ex st = Ok b /\ fst (unpack_f c_ex (fresh c_ex) (b ++ [xff])) = SComp [[x31]; [x32]] [([x31], SNumeric 42); ([x32], SBinary [xab])]
             /\ snd (unpack_f c_ex (fresh c_ex) (b ++ [xff])) = UOk (zlen b).
 Proof. eexists. split; [vm_compute; reflexivity|]. split; vm_compute; reflexivity. Qed.
+
+(* the premises of C01_field_roundtrip are satisfiable: the composite above is coherent and the state is in its domain *)
+Example C01_ex_coherent : coherent c_ex.
+Proof.
+  cbn [coherent c_ex]. split; [cbn; lia|]. split; [repeat constructor; cbn; intuition discriminate|]. split.
+  - cbn [tg_enc]. intros tag [<-|[<-|[]]]; apply tag_rt_value; try reflexivity; cbn; lia.
+  - repeat split; cbn; try lia; reflexivity.
+Qed.
+Example C01_ex_in_dom : in_dom c_ex (SComp [[x32]; [x31]] [([x31], SNumeric 42); ([x32], SBinary [xab])]).
+Proof.
+  cbn [in_dom c_ex]. split; [|split; [|split]].
+  - intros tag H. apply bmem_In in H. cbn [In map fst] in *. destruct H as [<-|[<-|[]]]; [right; left|left]; reflexivity.
+  - intros body H. vm_compute in H. injection H as <-. vm_compute. discriminate.
+  - cbn. discriminate.
+  - cbn [blookup bytes_eqb Byte.eqb andb]. split; [|split; [|exact I]]; intros _ x Hx; injection Hx as <-; (split; [|cbn; discriminate]).
+    + split; [change (0 <= 42 <= max_int); unfold max_int; lia|]. exists (itoa 42). repeat split; vm_compute; congruence.
+    + split; [exact I|]. exists [xab]. repeat split; vm_compute; congruence.
+Qed.
